@@ -41,7 +41,7 @@ from cryptoparser.common.base import (
     VectorParsableDerived,
     VectorString,
 )
-from cryptoparser.common.exception import InvalidType, NotEnoughData
+from cryptoparser.common.exception import InvalidType, NotEnoughData, TooMuchData
 from cryptoparser.common.parse import ParsableBase, ParserBinary, ComposerBinary, ComposerText
 from cryptoparser.common.x509 import PublicKeyX509
 
@@ -547,7 +547,10 @@ class SshCertExtensionParsed(SshCertExtensionBase):
     def _parse_header(cls, parsable):
         header_parser = ParserBinary(parsable)
 
-        header_parser.parse_parsable('extension_name', SshCertExtensionName, 4)
+        try:
+            header_parser.parse_parsable('extension_name', SshCertExtensionName, 4)
+        except TooMuchData as e:
+            six.raise_from(InvalidType(), e)
         if header_parser['extension_name'] != cls.get_extension_name():
             raise InvalidType()
 
